@@ -93,7 +93,17 @@ def match(x, L, ctx, mode="full", leafkey=None):
         return False, ctx
     if k == "pytree":
         if mode == "type":
-            raise RefDontCare("nested PyTree as flatten-time leaf test")
+            if len(L) > 2 and L[2] is not None:
+                raise RefDontCare("structured PyTree as flatten-time leaf test")
+            if len(L) == 1:
+                return True, ctx
+            # structure-less PyTree[L'] looked at by type only: every leaf (a subtree that
+            # type-matches L' counts as a leaf) type-matches L'
+            inner = L[1]
+            if x is None:
+                return True, ctx
+            leaves, _ = rpt.flatten(x, is_leaf=lambda y: match(y, inner, ctx, "type")[0])
+            return all(match(l, inner, ctx, "type")[0] for l in leaves), ctx
         v, c2, allowed = pytree_check(x, L, ctx, outer_leafkey=leafkey)
         if len(allowed) > 1:
             raise RefDontCare(str(L))
